@@ -3,19 +3,19 @@ PROPS = {
     "C12": dict(
         components=["schema", "traverser", "printer", "null"],
         lean=["PhpVerif.Props.C12"],
-        diffs=[], oracle=None, level="proof",
+        diffs=[], oracle="C12", level="proof",
         assumptions=["tree model M-TREE: per-field lists indexed by struct field number; Go interface/pointer identity abstracted to uid"],
     ),
     "C15": dict(
         components=["schema", "printer"],
         lean=["PhpVerif.Props.C15"],
-        diffs=[], oracle=None, level="proof",
+        diffs=[], oracle="C15", level="proof",
         assumptions=[],
     ),
     "C16": dict(
         components=["schema", "dumper"],
         lean=["PhpVerif.Props.C16"],
-        diffs=[], oracle=None, level="proof",
+        diffs=[], oracle="C16", level="proof",
         assumptions=[],
     ),
     "C18": dict(
